@@ -53,6 +53,12 @@ def main():
             n += 1
             out = os.path.join(outbase, f"out{n}")
         err = None
+        if step == "same" and out is not None and os.path.isdir(out):
+            # pre-populated output directory: every existing file is longer than what will be written
+            for r, _, fs in os.walk(out):
+                for fn in fs:
+                    with open(os.path.join(r, fn), "a", encoding="utf-8") as f:
+                        f.write("\n# stale tail from an earlier, longer revision of this file\n" * 3)
         with contextlib.redirect_stdout(io.StringIO()):
             if step == "failfirst":
                 broken = os.path.join(outbase, "broken_in")
